@@ -6,8 +6,9 @@ run-time contracts around the REAL solver run in fresh Python processes (bounded
                        (operators after decompression, recipes, cards, metadata)
    names()             the file name of an inventory item depends on the field values of its header only: the header classes (Evolution, Matching, Target) have numeric /
                        boolean fields only -- the built-in hash of numbers is not randomised -- and inventory.encode gives the same names in processes with different seeds
-Input set: a tiny NLO QCD card pair with a threshold crossing and three targets (both tiers), a tiny LO QED (1,1) card pair (thorough tier); three processes each.
-Not covered: parallel integration (n_integration_cores > 1, C03), other platforms or library versions.
+Input set: a tiny NLO QCD card pair with a threshold crossing and three targets (both tiers), a tiny LO card computed by two worker processes under two emulated
+schedules (workers finishing in opposite orders; both tiers), a tiny LO QED (1,1) card pair (thorough tier); three processes each.
+Not covered: more than two workers / other schedules, other platforms or library versions.
 """
 LEVEL = "exploration"
 
@@ -17,7 +18,7 @@ def run(chk):
 
     chk.under_contract("eko.runner.managed:solve", "eko.io.inventory:encode", "eko.io.inventory:header_name", "eko.io.inventory:operator_name", "eko.io.items:Evolution", "eko.io.items:Matching", "eko.io.items:Target")
     chk.trust("BOUNDED: run-time contracts over a finite input set -- no statement about inputs outside it", "CPython: hash() of int / float / bool does not depend on PYTHONHASHSEED")
-    chk.uncovered("parallel integration (n_integration_cores > 1)", "other platforms, BLAS / NumPy / numba versions", "card pairs other than the tiny ones")
+    chk.uncovered("more than two worker processes, schedules other than the two emulated ones", "other platforms, BLAS / NumPy / numba versions", "card pairs other than the tiny ones")
     chk.bounded_parts.append("everything: deal run-time contracts over the input set stated in bounded/C47_native.py")
     n = bounded.run_native(chk, "C47_native.py", backend="deal-runtime(bounded)", timeout=3000, env_extra={"VERIF_TIER": chk.tier})
     chk.extra["rule"] = "one deal post-condition evaluation per card pair: three full solves in fresh processes, all archive members compared by SHA-256 of the decompressed bytes"
